@@ -678,6 +678,43 @@ def C11():
     return chk
 
 
+def C12():
+    from . import r_reg
+    chk = Check("C12", "other",
+                "Decides the structural half of C12: the linear system that interpolate<T, order, Solver> hands to the "
+                "solver is EQUIVALENT (same row space of the augmented matrix, exact rational arithmetic) to the system "
+                "of the promised conditions - the piece of every interval takes the given ordinate at both of its nodes, "
+                "derivatives 1..order-1 of neighbouring pieces agree at every interior node, every boundary condition "
+                "(node, derivative order, value) holds - it has exactly (order+1)*(nodes-1) unknowns, every unknown is "
+                "returned as exactly one coefficient of the result, the assembly stays inside the solver's index range "
+                "and reads the solution only after solve(). With an exact solver and a uniquely solvable problem the "
+                "returned spline therefore satisfies C12 exactly. NOT decided: solvability, and the backward error of "
+                "the bundled dense solvers (Eigen / armadillo).")
+    chk.trust(*REG_TRUST)
+    chk.trust("vt::RecSolver (drivers/drv_core.h) is modelled natively: it records M(i,j), b(i), solve(), x(i)")
+    chk.assume("matrix entries are polynomials of degree <= order in ONE interval width each (the evaluator checks that "
+               "the assembly performs no comparison of scalar values, i.e. is branch-free in the data); agreement on "
+               "order+1 distinct widths per position then is agreement for every grid",
+               "the per-node loop body is uniform in the node index (index arithmetic with the constant order+1 only), so "
+               "2..4 (5) nodes cover first / interior / last node and their neighbourhoods")
+    thorough = C.tier() == "thorough"
+    total = 0
+    for n in _reg_unit_names() + ["arch_off"]:
+        u = F.load(n)
+        chk.units.append(n)
+        jobs = [("bsv.r_reg_val", "interp_system_suite", dict(nmax=5 if thorough else 4, orders=(o,), ns=[m]))
+                for o in ((1, 2, 3, 4) if thorough else (1, 2, 3)) for m in range(2, (6 if thorough else 5))]
+        total += r_reg.run_jobs(chk, u, "R-REG.sys", jobs)
+        # argument checks and the default boundary table (shared with C11)
+        total += r_reg.run_jobs(chk, u, "R-REG.val", _jobs("r_reg_val", "interpolate_suite", range(2, 4), nmax=3,
+                                                           orders=(1, 2, 3)))
+    chk.note("regions_evaluated", total)
+    chk.floor("R-REG.sys", chk.rules["R-REG.sys"]["instances"], 1, "(function, clause) obligations on interpolate")
+    if total < 800:
+        raise AnalysisBroken("only %d regions of the interpolation system were evaluated" % total)
+    return chk
+
+
 def C14():
     from . import r_reg, r_own, r_grd
     chk = Check("C14", "other",
@@ -749,7 +786,7 @@ def C18():
     return chk
 
 
-ALL.update(C09=C09, C10=C10, C11=C11, C14=C14, C18=C18)
+ALL.update(C09=C09, C10=C10, C11=C11, C12=C12, C14=C14, C18=C18)
 
 
 def C01():
